@@ -11,6 +11,10 @@ def handle : List String → String
       match ts.mapM parseTag with
       | some l => renderTag (getTag l)
       | none => "bad-op"
+  | "sort" :: ts =>
+      match ts.mapM parseTag with
+      | some l => " ".intercalate ((sortTags l).map renderTag)
+      | none => "bad-op"
   | ["strlen", a] =>
       match parseTag a with
       | some x => toString (strLen x)
